@@ -168,17 +168,25 @@ def _open_archive(file_like: typing.BinaryIO) -> zipfile.ZipFile:
 
     zipfile locates an archive from the END of the file, so in a truncated file it can
     find an end record spelled by the payload (biases are arbitrary bytes). The members
-    must therefore tile the file from the current position up to the central directory.
+    must therefore tile the file from the current position up to the central directory,
+    each with the name and the size its own local header records.
     """
     pos = file_like.tell()
     zf = zipfile.ZipFile(file_like, mode='r')
     for info in sorted(zf.infolist(), key=lambda info: info.header_offset):
-        file_like.seek(info.header_offset + 26)
-        lengths = file_like.read(4)  # lengths of the name and of the extra field
-        if info.header_offset != pos or len(lengths) != 4:
+        file_like.seek(info.header_offset)
+        local = file_like.read(30)  # local header: signature, ..., compressed size (18:22), lengths of name and extra (26:30)
+        nlen, elen = int.from_bytes(local[26:28], 'little'), int.from_bytes(local[28:30], 'little')
+        name, extra = file_like.read(nlen), file_like.read(elen)
+        # the directory is found from the end of the file, the local header precedes the data: they must agree on the
+        # member's name and compressed size (zip64: the last field of the extra), else the directory is not this archive's
+        size = int.from_bytes(extra[-8:] if local[18:22] == b'\xff\xff\xff\xff' else local[18:22], 'little')
+        if (info.header_offset != pos or len(local) != 30 or local[:4] != b'PK\x03\x04' or len(extra) != elen
+                or size != info.compress_size
+                or name.decode('utf-8' if info.flag_bits & 0x800 else 'cp437') != info.orig_filename):
             pos = -1
             break
-        pos += 30 + int.from_bytes(lengths[:2], 'little') + int.from_bytes(lengths[2:], 'little') + info.compress_size
+        pos += 30 + nlen + elen + info.compress_size
     if pos != zf.start_dir:
         zf.close()
         raise ValueError("truncated or corrupted file: the archive does not start after the header")
